@@ -13,3 +13,14 @@ func Yield(site int) {
 		h(site)
 	}
 }
+
+// LockHook is installed by the simulator; it receives +1 after a lock was taken and -1
+// after it was released, so that no task is parked while it holds a lock.
+var LockHook func(delta int)
+
+// Locked records a change of the running task's lock depth.
+func Locked(delta int) {
+	if h := LockHook; h != nil {
+		h(delta)
+	}
+}
